@@ -9,10 +9,12 @@ import (
 	"time"
 
 	"github.com/openconfig/gribigo/rib"
+	"github.com/openconfig/gribigo/server"
 
 	spb "github.com/openconfig/gribi/v1/proto/service"
 
 	"verifharness/canon"
+	"verifharness/drv"
 	"verifharness/gen"
 	"verifharness/model"
 )
@@ -28,6 +30,106 @@ type RIBMon struct {
 	CheckRefs bool
 	// LastOks / LastFails are the verdict ids of the most recent Do.
 	LastOks, LastFails []uint64
+	// Via, when set, makes Do program through this Modify session (the elected
+	// primary of Srv) instead of calling package rib directly; R is then Srv's RIB.
+	Via   *drv.Session
+	Stamp *spb.Uint128
+	Srv   *server.Server
+	GS    *drv.GRPCServer
+}
+
+// NewServerRIBMon is NewRIBMon with the operations programmed through the Modify RPC
+// of a real server (over real gRPC if grpc is set): what Get reports is then compared
+// with what the CLIENT programmed, whatever the server does to it on the way in.
+func NewServerRIBMon(s gen.Space, noFwdRef bool, grpc bool) (*RIBMon, error) {
+	var opts []server.ServerOpt
+	if noFwdRef {
+		opts = append(opts, server.WithNoRIBForwardReferences())
+	}
+	srv, err := drv.NewServer(s.NIs[1:], opts...)
+	if err != nil {
+		return nil, err
+	}
+	x := &RIBMon{R: srv.VerifRIB(), M: model.NewRIB(s.Default, s.NIs, noFwdRef), CheckHeld: true, CheckRefs: true}
+	var gs *drv.GRPCServer
+	if grpc {
+		gs = drv.Serve(srv)
+	}
+	if err := x.ProgramVia(srv, gs); err != nil {
+		if gs != nil {
+			gs.Stop()
+		}
+		return nil, err
+	}
+	x.GS = gs
+	return x, nil
+}
+
+// NewRIBMonVia picks the way operations reach the RIB: 0 = package rib directly,
+// 1 = the Modify RPC of a server (in-process stream), 2 = the same over real gRPC.
+func NewRIBMonVia(s gen.Space, noFwdRef bool, via int) (*RIBMon, error) {
+	if via == 0 {
+		return NewRIBMon(s, noFwdRef), nil
+	}
+	return NewServerRIBMon(s, noFwdRef, via == 2)
+}
+
+// ViaName names the three ways for evidence.
+func ViaName(via int) string { return [...]string{"rib", "modify-rpc", "modify-rpc-grpc"}[via] }
+
+// ProgramVia makes Do program through a new Modify session on srv (over gs if not
+// nil), negotiated SINGLE_PRIMARY/PRESERVE/RIB_ACK and elected primary.
+func (x *RIBMon) ProgramVia(srv *server.Server, gs *drv.GRPCServer) error {
+	x.Srv, x.Stamp = srv, &spb.Uint128{High: 1, Low: 1}
+	var st drv.Stream
+	if gs != nil {
+		gst, err := gs.OpenModify()
+		if err != nil {
+			return err
+		}
+		st = gst
+	} else {
+		st = drv.OpenModify(srv)
+	}
+	via := &drv.Session{Stream: st, Name: "primary", DefaultNI: x.M.Default}
+	if _, err := via.Params(drv.SinglePrimary(false)); err != nil {
+		return fmt.Errorf("negotiation: %v", err)
+	}
+	if _, err := via.Elect(x.Stamp); err != nil {
+		return fmt.Errorf("election: %v", err)
+	}
+	x.Via = via
+	return nil
+}
+
+// Close releases the session and transport of a server-backed monitor.
+func (x *RIBMon) Close() {
+	if x.Via != nil {
+		x.Via.CloseSend()
+	}
+	if x.GS != nil {
+		x.GS.Stop()
+	}
+}
+
+// applyVia programs one operation through the Modify session.
+func (x *RIBMon) applyVia(spec gen.OpSpec) (oks, fails []uint64, err error) {
+	spec.Op.ElectionId = x.Stamp
+	res := x.Via.Ops([]*spb.AFTOperation{spec.Op}, x.Stamp)
+	if res.RPCErr != nil {
+		return nil, nil, res.RPCErr
+	}
+	for _, r := range res.Results {
+		switch r.GetStatus() {
+		case spb.AFTResult_RIB_PROGRAMMED:
+			oks = append(oks, r.GetId())
+		case spb.AFTResult_FAILED:
+			fails = append(fails, r.GetId())
+		default:
+			return nil, nil, fmt.Errorf("unexpected result status %s for operation %d in RIB-ack mode", r.GetStatus(), r.GetId())
+		}
+	}
+	return oks, fails, nil
 }
 
 // NewRIBMon builds a RIB with the space's network instances and its model.
@@ -71,7 +173,13 @@ func Apply(r *rib.RIB, spec gen.OpSpec) (oks, fails []uint64, err error) {
 // Do applies spec to both sides and returns the discrepancies ("sig|text").
 func (x *RIBMon) Do(spec gen.OpSpec) (*model.StepResult, []string) {
 	x.Trace = append(x.Trace, spec.String())
-	oks, fails, err := Apply(x.R, spec)
+	var oks, fails []uint64
+	var err error
+	if x.Via != nil {
+		oks, fails, err = x.applyVia(spec)
+	} else {
+		oks, fails, err = Apply(x.R, spec)
+	}
 	x.LastOks, x.LastFails = oks, fails
 	if err != nil {
 		// RIB-level fatal error: acceptable only where the model demands failure.
